@@ -224,6 +224,23 @@ def calls_to(ctx: Ctx, f: Func, qnames: Iterable[str]) -> List[ast.Call]:
     return sorted(out, key=lambda c: (c.lineno, c.col_offset))
 
 
+def unfacade(ctx: "Ctx", f: Func, depth: int = 3) -> Func:
+    """The function that does the work of `f` when `f` only delegates: its body (docstring aside) is a single call - as an
+    expression statement or a returned value - that resolves to exactly one package function (`set_option(k, v)` ->
+    `_registry.set(k, v)`)."""
+    cur = f
+    for _ in range(depth):
+        body = [st for st in cur.node.body if not (isinstance(st, ast.Expr) and isinstance(st.value, ast.Constant))]
+        if len(body) != 1 or not isinstance(body[0], (ast.Expr, ast.Return)) or not isinstance(body[0].value, ast.Call):
+            break
+        fs, _d = ctx.prog.callees(cur, body[0].value, ctx.types)
+        fs = [g for g in fs if g.module.name.startswith("dds")]
+        if len(fs) != 1 or fs[0] is cur:
+            break
+        cur = fs[0]
+    return cur
+
+
 def pass_outcomes(cfg: CFG, m: Module, stmt: ast.AST) -> Tuple[List[Node], List[ast.AST]]:
     """
     For a statement (raise / return) guarded by an `if`: the branch nodes of the guard's atomic tests from
